@@ -37,7 +37,7 @@ def cases(ctx):
     rng = ctx.rng
     files = gen.fixture_files()
     # fixed universe: every k-th fixture (k by tier), plus deterministic truncations of a subset
-    step = ctx.budget(40, 1)
+    step = ctx.budget(15, 1)
     off = ctx.seed % step
     for i, (d, f) in enumerate(files):
         if i % step != off:
@@ -54,8 +54,8 @@ def cases(ctx):
     for k in range(ctx.budget(25, 400)):
         tpl, jctx = gen.jinja_template(rng) if k % 2 else gen.jinja_block_template(rng)
         yield "ansi", "jinja", tpl, jctx
-    for _ in range(ctx.budget(20, 300)):
-        yield "ansi", "gen", gen.sql_file(rng), None
+    for k in range(ctx.budget(120, 3000)):
+        yield ["ansi", "postgres", "tsql", "bigquery", "snowflake", "mysql", "sqlite", "duckdb"][k % 8], "gen", gen.sql_file(rng), None
 
 
 def run(ctx, prove=True):
